@@ -29,6 +29,9 @@ pub enum Limit {
     Strings(u32, u32, bool),
     /// as above but after deleting `freed` rows first (slots become free)
     StringsAfterDelete(u32, u32, u32),
+    /// `_Validation` holds 65,536 - `free` rows (rows about absent tables, as
+    /// real packages have); then create_table with `ncols` columns
+    ValidationRowsFull(u32, u32),
     TableName(usize),
     ColumnName(usize),
     /// packable characters only / one unpackable character per pair
@@ -166,6 +169,22 @@ fn approach(l: &Limit) -> Result<(Package<SharedBuf>, SharedBuf, Snapshot, std::
             let r = pkg.insert_rows(Insert::into("S").rows((0..*add).map(|i| vec![Value::Str(format!("new{i:05}"))]).collect()));
             Ok((pkg, buf, before, r, if pre - freed + add <= 65535 { Expect::MustOk } else { Expect::MustErr }))
         }
+        Limit::ValidationRowsFull(free, ncols) => {
+            let (mut pkg, buf) = fresh()?;
+            let have = pkg.select_rows(msi::Select::table("_Validation")).map_err(|e| err("select", e))?.len() as u32;
+            let filler = 65536 - free - have;
+            let rows: Vec<Vec<Value>> = (0..filler)
+                .map(|i| vec![Value::Str(format!("Absent{}", i / 256)), Value::Str(format!("c{}", i % 256)), Value::from("Y"), Value::Null, Value::Null, Value::Null, Value::Null, Value::Null, Value::Null, Value::Null])
+                .collect();
+            pkg.insert_rows(Insert::into("_Validation").rows(rows)).map_err(|e| err("insert filler", e))?;
+            let before = snap(&mut pkg)?;
+            let mut cols = vec![Column::build("k").primary_key().int16()];
+            for i in 1..*ncols {
+                cols.push(Column::build(format!("c{i}")).nullable().int16());
+            }
+            let r = pkg.create_table("Late", cols);
+            Ok((pkg, buf, before, r, if ncols <= free { Expect::MustOk } else { Expect::MustErr }))
+        }
         Limit::TableName(n) => {
             let (mut pkg, buf) = fresh()?;
             let before = snap(&mut pkg)?;
@@ -242,6 +261,7 @@ fn cases(thorough: bool) -> Vec<Limit> {
         Limit::RowsAfterDelete(10, 10), Limit::RowsAfterDelete(10, 11), Limit::RowsAfterDelete(1, 1), Limit::RowsAfterDelete(1, 2),
         Limit::Strings(65533, 1, false), Limit::Strings(65534, 1, false), Limit::Strings(65535, 1, false), Limit::Strings(65534, 2, false), Limit::Strings(65530, 5, false), Limit::Strings(65530, 6, false),
         Limit::Strings(65535, 3, true), Limit::Strings(65533, 4, true), Limit::Strings(65500, 4, true),
+        Limit::ValidationRowsFull(2, 2), Limit::ValidationRowsFull(1, 2), Limit::ValidationRowsFull(0, 1), Limit::ValidationRowsFull(3, 5),
         Limit::StringsAfterDelete(65535, 3, 3), Limit::StringsAfterDelete(65535, 3, 4), Limit::StringsAfterDelete(65535, 1, 1),
     ];
     for n in [30usize, 31, 32, 33, 59, 60, 61, 64, 65] {
